@@ -10,6 +10,7 @@ import gens_markets
 import gens_more
 import gens_sync
 import gens_rewards
+import gens_orders
 import vlib
 
 # model-checking configuration per family and tier: (module, cfg)
@@ -56,8 +57,11 @@ def durability_steps(model_steps):
     steps = []
     h = 200
     for s in model_steps:
-        if s["op"] in ("restart", "statesync"):
-            steps.append({"op": s["op"]})
+        if s["op"] == "restart":
+            steps.append({"op": "restart"})
+            continue
+        if s["op"] == "statesync":
+            steps.append({"op": "statesync", "back": s.get("back", 0)})
             continue
         kind = s["kind"]
         pre = None
@@ -80,6 +84,8 @@ def durability_steps(model_steps):
             st["hour"], st["dt"] = 13, 86400
         if "after" in s:
             st["after"] = LABELS[s["after"]]
+        if s.get("lateSnap"):
+            st["lateSnap"] = True
         steps.append(st)
         h += 1
     return steps + [{"op": "block"}, {"op": "block"}]
@@ -140,7 +146,8 @@ def staking(tier, seed):
 MC["staking"] = None
 def markets(tier, seed):
     rnd = random.Random("%d/markets" % seed)
-    return gens_markets.markets(rnd, {"quick": 80, "thorough": 3000}[tier]) + regress("markets")
+    return (gens_markets.markets(rnd, {"quick": 80, "thorough": 3000}[tier]) + gens_orders.orderbooks(rnd, {"quick": 60, "thorough": 2000}[tier])
+            + regress("markets"))
 
 
 MC["markets"] = None
